@@ -70,7 +70,8 @@ Expand(r, qq, look) ==
 
 ---------------------------------------------------------------------------
 (* Declarative reading of C17 (only for well-formed records). *)
-Zip(x) == [i \in 1..Len(x.p) |-> [id |-> x.p[i], md |-> x.m[i]]]
+(* an entry beyond the end of the metadata list has no metadata of its own (absent) *)
+Zip(x) == [i \in 1..Len(x.p) |-> [id |-> x.p[i], md |-> IF i <= Len(x.m) THEN x.m[i] ELSE "nil"]]
 AddsNothing(e, look) == e.id = Main /\ (NoMd(e.md) \/ e.md = look)
 MapKeep(s, look) ==
   LET keep == SelectSeq(s, LAMBDA e : ~AddsNothing(e, look))
@@ -81,8 +82,9 @@ Declared(r, qq, look) ==
       chPart  == IF r.has /\ ~(registered /\ r.ov) THEN MapKeep(Zip(r.ch), look) ELSE <<>>
   IN <<[id |-> Main, md |-> look]>> \o ctxPart \o chPart
 
-Out(r, qq, look) == IF WellFormed(r) THEN [kind |-> "exact", res |-> Declared(r, qq, look)]
-                    ELSE [kind |-> "nopanic", res |-> <<>>]
+(* Lists of different lengths: "results or an error, never a panic" -- if results are produced they
+   follow the same rules, a missing metadata value counting as absent.                              *)
+Out(r, qq, look) == [kind |-> IF WellFormed(r) THEN "exact" ELSE "exact_or_error", res |-> Declared(r, qq, look)]
 
 ---------------------------------------------------------------------------
 (* The case is chosen in two steps so that TLC's workers share the enumeration. *)
@@ -103,7 +105,7 @@ Complete == stage = 2
 R == Expand(rec, q, l)
 
 (* Clauses of C17 as separate laws over a result r of the transcription. *)
-AgreeOf(r) == WellFormed(rec) => r = Ok(Declared(rec, q, l))
+AgreeOf(r) == (WellFormed(rec) \/ FIXED) => r = Ok(Declared(rec, q, l))
 HeadIsMainOf(r) == r.kind = "ok" => Len(r.res) >= 1 /\ r.res[1] = [id |-> Main, md |-> l]
 NeverPanicsOf(r) == FIXED => r.kind = "ok"
 NoEmptyMetadataOf(r) ==   \* substitution: nobody is returned with absent/empty metadata unless the looked-up one is
